@@ -21,7 +21,7 @@ RULE = ("for each initial content (fixed set + seeded random compositions of the
         "new content) so that the content write genuinely comes back short, and once per cap (1, 7, 16 bytes) with every write() "
         "transferring at most that many bytes but succeeding. Oracle: the preload file afterwards holds exactly the old or exactly the "
         "new content (absent counts as old when it was absent). Beyond single runs: every call of the window failing with EIO/EINTR (plus "
-        "call-specific errnos: EBUSY/EXDEV/EPERM/ENOENT/ESTALE on rename, EACCES/EMFILE on open, early end of file on read, and read faults that last: every read from call k on fails); histories (a run killed at a window "
+        "call-specific errnos: EBUSY/EXDEV/EPERM/ENOENT/ESTALE on rename, EACCES/EMFILE on open, early end of file on read, and read faults that last: every read from call k on fails; single faults at every writing call with the command started without stderr or without stdout and stderr); histories (a run killed at a window "
         "call, the file then replaced by other content, a later run must produce exactly what it produces without that history); and two "
         "overlapping runs (the first held by a tracer delay on entry to its rename, the second killed at write-type calls or running to its end); and fault "
         "pairs: the rename failing with EBUSY/EXDEV plus a kill / ENOSPC / EIO at every call the command makes after that; and another package replacing the file atomically while the command is held on entry to each of its calls from the first touch of the file to its own rename (the file must end as one of the complete contents either party wrote). non-trivial = crash/fault point at or after the first call that "
@@ -53,6 +53,19 @@ def strace(ctl, action, inject=None, out=None):
     for inj in ([inject] if isinstance(inject, str) else (inject or [])):
         cmd += ["-e", "inject=" + inj]
     cmd += [ctl.ctl, action]
+    closed = tuple(getattr(ctl, "closed", ()) or ())
+    if closed:
+        # the command is started WITHOUT some of its standard descriptors (`snoopyctl disable 2>&-` in a maintainer script): the
+        # temporary file then gets that number, and whatever the command prints goes wherever that number points
+        def pre():
+            for fd in closed:
+                try:
+                    os.close(fd)
+                except OSError:
+                    pass
+        p = subprocess.run(cmd, env=ctl.env, stdin=subprocess.DEVNULL, stdout=subprocess.DEVNULL, stderr=subprocess.DEVNULL, timeout=60,
+                           preexec_fn=pre, close_fds=True)
+        return p.returncode
     p = subprocess.run(cmd, env=ctl.env, stdin=subprocess.DEVNULL, stdout=subprocess.PIPE, stderr=subprocess.PIPE, timeout=60)
     return p.returncode
 
@@ -270,6 +283,19 @@ def plans_for(calls, first_touch, quick):
                     yield "%s:error=%s:when=%d+" % (name, e, ordinal), True, ("fault-lasting:" + e, i, name)
 
 
+def closed_run(ctl, content, action, inject, closed, aged=False):
+    """one fault while the command runs without the standard descriptors in `closed`"""
+    ctl.closed = tuple(closed)
+    try:
+        old, new, calls, ft = dry_run(ctl, content, action, aged)
+        one_run(ctl, content, action, inject, old, new, aged)
+    except Failure as f:
+        f.what += " -- command started without descriptor(s) %s" % ",".join(map(str, closed))
+        raise
+    finally:
+        ctl.closed = ()
+
+
 _W = {}
 
 
@@ -302,6 +328,31 @@ def worker(args):
                 if ok and not fails:
                     case["syscalls"] = len(calls)
                     fails.append({"case": case, "what": last.what, "observed": last.observed, "expected": last.expected})
+        # the same single faults at the writing calls while the command runs without stderr (and stdout): every message it prints on
+        # the way out of a failing call then goes to whatever got that descriptor number -- possibly the temporary file
+        closed = ((2,), (1, 2))[(jn + idx) % 2]
+        ctl.closed = closed
+        try:
+            old_c, new_c, calls_c, ft_c = dry_run(ctl, content, action, False)
+            for i, (name, ordinal, text) in enumerate(calls_c):
+                if ft_c is None or i < ft_c or name not in WRITE_CALLS:
+                    continue
+                for e in ["EIO"] + EXTRA_ERRNOS.get(name, [])[:2] + (["EPERM"] if name in ("fchown", "fchmod") else []):
+                    inject = "%s:error=%s:when=%d" % (name, e, ordinal)
+                    case = {"content": content, "action": action, "inject": inject, "closed": list(closed)}
+                    local.count((content, action, "closed", closed, inject), [action, "closed-stdio+fault", "call:" + name, "window"], sample=case)
+                    try:
+                        one_run(ctl, content, action, inject, old_c, new_c, False)
+                    except Failure as f:
+                        if local.is_known(f.key):
+                            local.known_hit(f.key, f.what)
+                            continue
+                        ok, last = confirm(lambda c: closed_run(ctl, c["content"], c["action"], c["inject"], c["closed"]), case)
+                        ctl.closed = closed
+                        if ok and not fails:
+                            fails.append({"case": case, "what": last.what, "observed": last.observed, "expected": last.expected})
+        finally:
+            ctl.closed = ()
         # histories and overlapping runs (only where the run really rewrites the file)
         if new != old and first_touch is not None:
             window = [(i, c) for i, c in enumerate(calls) if i >= first_touch and c[0] not in ("exit_group", "exit")]
@@ -442,7 +493,9 @@ def main():
         ctx.count("replay-1", ["replay"], sample=case)
         ctx.nontrivial.add("replay-2")
         try:
-            if "then" in case:
+            if "closed" in case:
+                closed_run(ctl, case["content"], case["action"], case["inject"], case["closed"])
+            elif "then" in case:
                 recovery_run(ctl, case["content"], case["action"], case["inject"], old, tuple(case["then"]), {})
             elif "replace_at" in case:
                 replace_run(ctl, case["content"], case["action"], tuple(case["replace_at"]), old, {})
